@@ -8,6 +8,7 @@ PROP = {
         {"name": "gstuff_legacy", "quick": 1000000, "thorough": 12000000, "maxlen": 400},
         {"name": "gstuff_cfg_resume", "quick": 600000, "thorough": 8000000, "maxlen": 300},
         {"name": "gstuff_cfg_bigcap", "quick": 6000, "thorough": 300000, "maxlen": 400},
+        {"name": "gstuff_cfg_sparse", "quick": 150000, "thorough": 2000000, "maxlen": 200},
         {"name": "gstuff_legacy_bigcap", "quick": 5000, "thorough": 200000, "maxlen": 400},
     ],
     "uchar": ["gstuff_cfg", "gstuff_legacy"],
